@@ -154,7 +154,7 @@ class LazrsPointWriter(IPointWriter):
         assert (
             self.compressor is not None
         ), "Trying to write points without having written header"
-        points_bytes = np.frombuffer(points.array, np.uint8)
+        points_bytes = np.frombuffer(points.memoryview(), np.uint8)
         self.compressor.compress_many(points_bytes)
 
     def done(self) -> None:
@@ -182,7 +182,7 @@ class LazrsAppender(IPointAppender):
             self.appender = lazrs.LasZipAppender(dest, laszip_vlr.record_data)
 
     def append_points(self, points: PackedPointRecord) -> None:
-        points_bytes = np.frombuffer(points.array, np.uint8)
+        points_bytes = np.frombuffer(points.memoryview(), np.uint8)
         self.appender.compress_many(points_bytes)
 
     def done(self) -> None:
